@@ -475,8 +475,16 @@ func buildList(x *X, i int, kind string, spec dbListSpec) (*signature.SignatureL
 			}
 		}
 		wrongSize := (spec.T == 0 && len(data) != 32) || (len(l.Signatures) > 0 && l.Size != uint32(16+len(stored)))
-		err := l.AppendBytes(dbOwners[it.O], append([]byte(nil), data...))
-		x.Logf("   list.AppendBytes(%s, o%d, d%d) -> %v", typeSig(spec.T), it.O, it.D, err)
+		// the two list-level entry points in turn
+		var err error
+		how := "AppendBytes"
+		if (it.O+it.D+len(l.Signatures))%2 == 1 {
+			how = "AppendSignature"
+			err = l.AppendSignature(signature.SignatureData{Owner: dbOwners[it.O], Data: append([]byte(nil), data...)})
+		} else {
+			err = l.AppendBytes(dbOwners[it.O], append([]byte(nil), data...))
+		}
+		x.Logf("   list.%s(%s, o%d, d%d) -> %v", how, typeSig(spec.T), it.O, it.D, err)
 		sig := map[string]string{"level": "list", "type": typeSig(spec.T), "dup": fmt.Sprint(dup), "wrong_size": fmt.Sprint(wrongSize), "pem": fmt.Sprint(dbIsPEM(spec.T, it.D))}
 		fail := func(oracle, format string, a ...any) {
 			x.Fail(oracle, i, kind, format, a...)
@@ -959,7 +967,18 @@ func (e *dbhistEngine) Exec(tr *Trace, x *X) {
 					// decode into the live database itself (reloading a variable into the object one already has). Only when
 					// the decoder is known to accept the stream: a failed decode into a live object is outside the statement.
 					if _, e2 := signature.ReadSignatureDatabase(bytes.NewReader(enc)); e2 != nil {
+						// the decoder refuses this stream (a type it does not implement): decoding it into the live database has
+						// to report that and, like every failed operation, change nothing
 						got, err = signature.SignatureDatabase{}, e2
+						if e3 := db.Unmarshal(cbuf); e3 == nil {
+							fail("dbhist.restart_decodes_own_output", "ReadSignatureDatabase refuses the stream (%v) but Unmarshal into the live database accepts it", e2)
+							return
+						}
+						if dbSnapshot(db) != snap {
+							fail("dbhist.failed_op_changes_nothing", "decoding a stream the decoder refuses into the live database failed, and changed the database")
+							return
+						}
+						x.Probe("failed_decode_into_live_database")
 					} else {
 						live := *db
 						err = live.Unmarshal(cbuf)
